@@ -82,6 +82,18 @@ class Reporter:
         if not cond: raise AnalysisBroken(msg)
 
     # ---- finish
+    def finish_incomplete(s, why):
+        """the analysis broke off (a rule could not be evaluated) after violations had been recorded: a violation that
+        was found stays a violation - report the unlisted ones (exit 1) and say what could not be analysed; None if there
+        is nothing to report (the caller then exits 2)"""
+        open_keys, fixed = load_known(s.prop)
+        if not [v for v in s.viol if v.key not in open_keys]: return None
+        s.floors = {}
+        s.notes.insert(0, 'ANALYSIS INCOMPLETE: %s' % why)
+        s.undecided.insert(0, 'everything after the point where the analysis broke off: %s' % str(why)[:300])
+        print('ANALYSIS-INCOMPLETE property=%s %s' % (s.prop, str(why)[:400]))
+        return s.finish('other', 'incomplete run: the analysis broke off (%s); the violations recorded before that point are reported' % str(why)[:200])
+
     def finish(s, level, explanation, extra=None):
         open_keys, fixed = load_known(s.prop)
         # instance floors.  A rule that matched fewer instances than were confirmed by hand is broken (exit 2) - unless the same
